@@ -1,7 +1,7 @@
 (** C05 part 1 — call traces: lift-free expressions call each call site once, left to right,
     arguments before the call; computed refutations lift to every fuel. *)
 From Coq Require Import ZArith List Bool Lia.
-From V.C03 Require Import PyAst PySem Cfg CfgSem Builder Witness ProofsRefute ProofsExpr.
+From V.C03 Require Import PyAst PySem Cfg CfgSem Builder Frag Witness ProofsRefute ProofsExpr ProofsBuild.
 From V.C05 Require Import ModelTrace.
 Import ListNotations.
 
@@ -74,4 +74,20 @@ Proof.
   assert (rc' = rc) by (eapply run_done_unique; eauto). subst rc'.
   unfold called in Heq. destruct rc as [vc stc], rp as [vp stp]. simpl in *.
   inversion Heq as [Heq']. apply nats_eqb_eq in Heq'. rewrite Heq' in H. discriminate.
+Qed.
+
+(** statement level: C03's simulation theorem for [frag_stmts], projected on call events *)
+Lemma trace_equal_frag : forall oracle p rn g s,
+  frag_stmts p = true -> build p rn = BOk g s ->
+  forall fuel st v st', exec_py oracle fuel p st = Done (v, st') ->
+  (exists fuel', trace_of (run_cfg oracle g fuel' st) = Some (rev (snd st'))) /\
+  (forall fuel' r, run_cfg oracle g fuel' st = Done r ->
+     trace_of (Done r) = trace_of (exec_py oracle fuel p st)).
+Proof.
+  intros oracle p rn g s F B fuel st v st' X.
+  destruct (build_preserves_frag oracle p rn g s F B fuel st v st' X) as (f2 & R2).
+  split.
+  - exists f2. rewrite R2. reflexivity.
+  - intros fuel' r R. rewrite X. unfold run_cfg in *.
+    assert (r = (v, st')) by (eapply run_done_unique; eauto). subst r. reflexivity.
 Qed.
